@@ -987,3 +987,330 @@ def c14_worker(item):
 def cli_c14(v, tier, seed):
     b = rq()
     cli.pool_run(v, c14_worker, [(seed * 1_000_003 + i, b) for i in range(n(tier, 4000, 60000))])
+
+
+# ----------------------------------------------------------------------------
+# C16 series options and file-name resolution
+
+
+def spell_series_line(r, p):
+    """random accepted spelling of the options of a series entry"""
+    opts = []
+    if p.strip != 1 or r.random() < 0.3:
+        s = r.choice(["-p%d", "-p %d", "--strip=%d", "--strip %d"]) % p.strip
+        opts.append(s)
+    if p.reverse:
+        opts.append(r.choice(["-R", "--reverse"]))
+    r.shuffle(opts)
+    sep = r.choice([" ", "  ", "\t", " \t "])
+    line = r.choice(["", "", " ", "\t"]) + p.name + (sep + sep.join(opts) if opts else "") + r.choice(["", "", " ", "\t "])
+    return line
+
+
+def c16_options_case(r, seed, binary, res):
+    cfg = wsgen.GenConfig(p_fail=0.25, max_patches=r.choice([2, 4, 6]))
+    ws = wsgen.generate(seed, cfg)
+    lines = []
+    for p in ws.patches:
+        if r.random() < 0.3:
+            lines.append(r.choice(["# a comment", "#", "", "   ", "# p99-not-a-patch.patch -p0", "\t"]))
+        lines.append(spell_series_line(r, p))
+    if r.random() < 0.3:
+        lines.append("# trailing comment")
+    threads = r.choice([1, 4])
+    args = base_args(threads=threads, backup=r.choice(["never", None]), verbosity="-q") + ["push", "-a"]
+    with Scratch("c16") as scr:
+        orig, work = fresh(scr, ws, 0)
+        for d in (orig, work):
+            with open(os.path.join(d, "series"), "w") as f:
+                f.write("\n".join(lines) + "\n")
+        rr = runner.run_rq(binary, work, args)
+        res["evals"] += 1
+        sig0 = {"part": "options", "driver": "seq" if threads == 1 else "par"}
+        out = cli.check_push_outcome(res, ws, work, rr, 0, len(ws.patches), sig0, [binary] + args)
+        if out:
+            res.count("held-runs")
+            res.count("options-runs")
+            nd = sum(1 for p in ws.patches if p.strip != 1 or p.reverse)
+            if nd:
+                res["nontrivial"].append(case_key("opt", tuple(lines), cli.ws_shape_key(ws), threads))
+                res.count("series-entries-with-non-default-options", nd)
+            for p in ws.patches:
+                res.count("strip=%d" % p.strip)
+                if p.reverse:
+                    res.count("reverse")
+            if seed % 200 == 23:
+                res["sample"] = {"series_file": lines, "args": args, "exit": rr.rc, "patches": [q.describe() if hasattr(q, "describe") else None for q in []] or ws.describe()["patches"][:3]}
+
+
+STATES = ["E", "C", "D", "A"]
+
+
+def c16_names_case(r, seed, binary, res):
+    so, sn = r.choice(STATES), r.choice(STATES)
+    old, new = r.choice([("src/thing.c.orig", "src/thing.c"), ("old/name.txt", "new/name.txt"), ("f.old", "f.new"), ("deep/a/b/x.h", "x.h")])
+    strip = r.choice([0, 1, 2])
+    content = b"l1\nl2\nl3\n"
+    t0 = {"keep/other.txt": (b"other\n", 0o644)}
+    ops1 = []
+    tree1 = dict(t0)
+
+    def setup(name, st):
+        if st == "E":
+            t0[name] = (content, 0o644)
+            tree1[name] = (content, 0o644)
+        elif st == "C":
+            op = wsgen.Op("create", name, pre=None, post=content, pre_mode=None, post_mode=0o644)
+            op.style = "devnull"
+            ops1.append(op)
+            tree1[name] = (content, 0o644)
+        elif st == "D":
+            t0[name] = (content, 0o644)
+            op = wsgen.Op("delete", name, pre=content, post=None, pre_mode=0o644, post_mode=None)
+            op.style = "devnull"
+            ops1.append(op)
+            tree1.pop(name, None)
+
+    setup(old, so)
+    setup(new, sn)
+    # p1 always does something
+    opk = wsgen.Op("modify", "keep/other.txt", pre=b"other\n", post=b"other\nmore\n", pre_mode=0o644, post_mode=0o644)
+    ops1.append(opk)
+    tree1["keep/other.txt"] = (opk.post, 0o644)
+    p1 = wsgen.PatchSpec("p1-setup.patch", ops1, 1, False, False)
+    wsgen.render_patch(p1, r)
+    pre_a = wsgen._prefix(strip, "a")
+    pre_b = wsgen._prefix(strip, "b")
+    ts = b"\t2020-01-01 00:00:00.000000000 +0000" if r.random() < 0.3 else b""
+    text = b"--- " + (pre_a + old).encode() + ts + b"\n+++ " + (pre_b + new).encode() + ts + b"\n@@ -1,3 +1,3 @@\n l1\n-l2\n+L2\n l3\n"
+    p2 = wsgen.PatchSpec("p2-names.patch", [], strip, False, False)
+    p2.text = text
+    p2.series_line = "p2-names.patch" + ("" if strip == 1 else " -p%d" % strip)
+    old_exists = so in ("E", "C")
+    target = old if old_exists else new
+    target_exists = (so if old_exists else sn) in ("E", "C")
+    tree2 = dict(tree1)
+    if target_exists:
+        tree2[target] = (b"l1\nL2\nl3\n", 0o644)
+    ws = wsgen.Workspace()
+    ws.t0 = t0
+    ws.patches = [p1, p2]
+    ws.trees = [t0, tree1] + ([tree2] if target_exists else [])
+    ws.fail_at = None if target_exists else 1
+    ws.seed = seed
+    mode = r.choice(["single-seq", "single-par", "split"])
+    with Scratch("c16n") as scr:
+        orig, work = fresh(scr, ws, 0)
+        runs = []
+        if mode == "split":
+            runs = [base_args(threads=r.choice([1, 4]), backup="always", verbosity="-q") + ["push"], base_args(threads=r.choice([1, 4]), backup="always", verbosity="-q") + ["push"]]
+        else:
+            runs = [base_args(threads=1 if mode == "single-seq" else 4, backup="always", verbosity="-q") + ["push", "-a"]]
+        rr = None
+        for a in runs:
+            rr = runner.run_rq(binary, work, a)
+            if rr.timed_out:
+                res["inconclusive"] = "watchdog"
+                return
+            if rr.crashed():
+                break
+        res["evals"] += 1
+        sig0 = {"part": "names", "old": so, "new": sn, "mode": mode}
+        # final outcome against ground truth (first=0, whole series)
+        out = cli.check_push_outcome(res, ws, work, rr, 0 if mode != "split" else (1 if True else 0), 2 if mode != "split" else 1, sig0, runs[-1]) if mode != "split" else _c16_split_outcome(res, ws, work, rr, sig0, runs)
+        if not out:
+            return
+        obs = out[3]
+        if target_exists:
+            bk = ".pc/p2-names.patch/" + target
+            other = new if target == old else old
+            bko = ".pc/p2-names.patch/" + other
+            if bk not in obs["pc"]:
+                res.viol(dict(sig0, **{"class": "backup-for-chosen-name-missing"}), "expected %s (old %s, new %s); .pc has %s" % (bk, so, sn, sorted(obs["pc"])), orig, runs[-1])
+                return
+            if bko in obs["pc"]:
+                res.viol(dict(sig0, **{"class": "backup-for-other-name"}), "unexpected %s" % bko, orig, runs[-1])
+                return
+        res.count("held-runs")
+        res.count("names-runs")
+        res.count("names:old=%s,new=%s" % (so, sn))
+        res.count("names-mode:%s" % mode)
+        res["nontrivial"].append(case_key("names", so, sn, old, new, strip, mode))
+        if seed % 200 == 29:
+            res["sample"] = {"old": old, "old_state": so, "new": new, "new_state": sn, "patch": text.decode(), "series_line": p2.series_line,
+                             "expected_target": target if target_exists else None, "runs": runs, "exit": rr.rc}
+
+
+def _c16_split_outcome(res, ws, work, rr, sig0, runs):
+    # after two 'push' invocations the state is that of pushing both patches
+    return cli.check_push_outcome(res, ws, work, rr, 1, 1, sig0, runs[-1])
+
+
+def c16_worker(item):
+    seed, binary = item
+    r = random.Random(seed * 472882027 + 16)
+    res = Res()
+    if r.random() < 0.5:
+        c16_options_case(r, seed, binary, res)
+    else:
+        c16_names_case(r, seed, binary, res)
+    return res
+
+
+def cli_c16(v, tier, seed):
+    b = rq()
+    cli.pool_run(v, c16_worker, [(seed * 1_000_003 + i, b) for i in range(n(tier, 5000, 60000))])
+
+
+# ----------------------------------------------------------------------------
+# C17 inconsistent state or arguments are refused cleanly
+
+
+def c17_worker(item):
+    seed, binary = item
+    r = random.Random(seed * 553105243 + 17)
+    res = Res()
+    cfg = wsgen.GenConfig(p_fail=0.0, max_patches=r.choice([1, 2, 3, 4, 6]))
+    ws = wsgen.generate(seed, cfg)
+    names = [p.name for p in ws.patches]
+    kind = r.choice(["state", "state", "goal", "goal", "badpatch", "badpatch", "bignum"])
+    threads = r.choice([1, 4])
+    verbosity = r.choice(["-q", None])
+    first = r.randint(0, len(names))
+    goal = ["-a"]
+    applied_override = None
+    expect_refusal = True
+    what = None
+    with Scratch("c17") as scr:
+        if kind == "state":
+            how = r.choice(["longer", "longer-unknown", "reordered", "edited", "duplicated", "unknown-first", "garbage-line"])
+            a = names[:first]
+            if how == "longer":
+                a = names + ["zz-extra-%d.patch" % i for i in range(r.randint(1, 3))]
+            elif how == "longer-unknown":
+                a = names[:first] + ["not-in-series.patch"] * (len(names) - first + 1)
+            elif how == "reordered" and len(names) >= 2:
+                a = names[:max(first, 2)]
+                i = r.randrange(len(a) - 1)
+                a[i], a[i + 1] = a[i + 1], a[i]
+            elif how == "edited" and a:
+                i = r.randrange(len(a))
+                a = list(a)
+                a[i] = a[i] + ".edited"
+            elif how == "duplicated" and a and len(names) >= 2:
+                i = r.randrange(len(a))
+                a = a[:i + 1] + [a[i]] + a[i + 1:]
+                if a == names[:len(a)]:
+                    a = None
+            elif how == "unknown-first":
+                a = ["completely-unknown.patch"] + names[:first]
+            elif how == "garbage-line" and names:
+                a = names[:first] + ["\x00\xff garbage"] if first < len(names) else None
+            else:
+                a = None
+            if a is None or a == names[:len(a)]:
+                return res
+            applied_override = a
+            what = "state:" + how
+            tree_idx = min(first, len(names))
+        elif kind == "goal":
+            how = r.choice(["unknown-name", "applied-name", "applied-name-all-applied", "number-too-big-to-parse", "similar-name"])
+            tree_idx = first
+            if how == "unknown-name":
+                goal = ["no-such.patch"]
+            elif how == "applied-name":
+                if first == 0:
+                    return res
+                goal = [names[r.randrange(first)]]
+            elif how == "applied-name-all-applied":
+                first = len(names)
+                tree_idx = first
+                if not names:
+                    return res
+                goal = [r.choice(names)]
+            elif how == "number-too-big-to-parse":
+                goal = ["18446744073709551616"]
+            else:
+                if not names:
+                    return res
+                goal = [names[0][:-1]]
+            what = "goal:" + how
+        elif kind == "badpatch":
+            how = r.choice(["missing", "is-a-directory", "truncated-hunk", "bad-header", "binary", "missing-filename"])
+            if first >= len(names):
+                return res
+            pos = r.randrange(first, len(names))
+            what = "badpatch:" + how
+            tree_idx = first
+        else:
+            # huge but parseable counts are not refusals: they must behave like 'as many as there are'
+            expect_refusal = False
+            goal = [r.choice(["18446744073709551615", "9223372036854775808", "18446744073709551614", "4294967296", "0"])]
+            what = "bignum"
+            tree_idx = first
+        orig = os.path.join(scr, "ws.orig")
+        work = os.path.join(scr, "ws")
+        wsgen.materialize(ws, orig, applied=tree_idx if kind != "state" else min(first, len(names)))
+        if applied_override is not None:
+            os.makedirs(os.path.join(orig, ".pc"), exist_ok=True)
+            with open(os.path.join(orig, ".pc", "applied-patches"), "wb") as f:
+                f.write(b"".join(x.encode("latin-1", "replace") + b"\n" for x in applied_override))
+        if kind == "badpatch":
+            pf = os.path.join(orig, "patches", names[pos])
+            if how == "missing":
+                os.unlink(pf)
+            elif how == "is-a-directory":
+                os.unlink(pf)
+                os.mkdir(pf)
+            else:
+                data = open(pf, "rb").read()
+                bad = {"truncated-hunk": b"--- a/f.c\n+++ b/f.c\n@@ -1,5 +1,5 @@\n context\n-old\n",
+                       "bad-header": b"--- a/f.c\n+++ b/f.c\n@@ -x,5 +1,5 @@\n context\n",
+                       "binary": b"diff --git a/bin b/bin\nindex 123..456\nGIT binary patch\nliteral 5\nabcde\n",
+                       "missing-filename": b"--- /dev/null\n+++ /dev/null\n@@ -1 +1 @@\n-a\n+b\n"}[how]
+                with open(pf, "wb") as f:
+                    f.write(data + bad if r.random() < 0.5 else bad + data)
+        runner.copy_ws(orig, work)
+        args = base_args(threads=threads, backup=r.choice([None, "always"]), verbosity=verbosity) + ["push"] + goal
+        before = runner.snapshot(work, with_meta=True)
+        rr = runner.run_rq(binary, work, args)
+        after = runner.snapshot(work, with_meta=True)
+        res["evals"] = 1
+        sig0 = {"case": what, "driver": "seq" if threads == 1 else "par", "verbosity": verbosity or "default"}
+        argv = [binary] + args
+        if rr.timed_out:
+            res["inconclusive"] = "watchdog"
+            return res
+        if rr.crashed():
+            res.viol(dict(sig0, **{"class": "crash", "rc": str(rr.rc), "where": cli.crash_site(rr.err)}), "crash: %s" % rr.err.decode("utf-8", "replace")[-400:], orig, argv)
+            return res
+        if expect_refusal:
+            if rr.rc != 1:
+                res.viol(dict(sig0, **{"class": "not-refused", "rc": str(rr.rc)}), "exit status %s; stdout %s" % (rr.rc, rr.out.decode("utf-8", "replace")[-200:]), orig, argv)
+                return res
+            if not rr.err.strip():
+                res.viol(dict(sig0, **{"class": "no-message"}), "exit 1 without a message on stderr", orig, argv)
+                return res
+            if before != after:
+                ch = sorted(p for p in set(before) | set(after) if before.get(p) != after.get(p))
+                res.viol(dict(sig0, **{"class": "refusal-changed-something"}), "changed: %s; stderr %s" % (ch[:5], rr.err.decode("utf-8", "replace")[-200:]), orig, argv)
+                return res
+            res.count("refusals-verified")
+        else:
+            count = int(goal[0])
+            out = cli.check_push_outcome(res, ws, work, rr, first, min(count, len(names)), sig0, argv)
+            if not out:
+                return res
+            res.count("huge-counts-verified")
+        res.count("held-runs")
+        res.count("case:%s" % what)
+        res["nontrivial"].append(case_key(what, first, tuple(goal), threads, verbosity, cli.ws_shape_key(ws)))
+        if seed % 200 == 31:
+            res["sample"] = {"case": what, "series": names, "applied_patches_file": applied_override if applied_override is not None else names[:tree_idx], "args": args,
+                             "exit": rr.rc, "stderr": rr.err.decode("utf-8", "replace")[-200:]}
+    return res
+
+
+def cli_c17(v, tier, seed):
+    b = rq()
+    cli.pool_run(v, c17_worker, [(seed * 1_000_003 + i, b) for i in range(n(tier, 5000, 60000))])
